@@ -1110,3 +1110,79 @@ def drop_dead_stores(fn):
         return out
     fn.body = block(fn.body) or [ast.Pass()]
     return cnt[0]
+
+
+def expand_listcomps_with_calls(fn):
+    """`X = f([H(a, v) for v in IT])` where H is a method of self / cls: the
+    comprehension is written as the loop it abbreviates,
+        __lc_N = []; for v in IT: __e_N = H(a, v); __lc_N.append(__e_N)
+    so that the helper can be inlined like any other call statement.
+    Returns a copy (fn itself when nothing applies)."""
+    cnt = [0]
+
+    def wanted(lc):
+        if not isinstance(lc, ast.ListComp) or len(lc.generators) != 1:
+            return False
+        g = lc.generators[0]
+        if g.is_async:
+            return False
+        return any(isinstance(c, ast.Call) and isinstance(
+            c.func, ast.Attribute) and isinstance(
+                c.func.value, ast.Name) and c.func.value.id in (
+                    "self", "cls") for c in ast.walk(lc.elt))
+
+    def rewrite(s):
+        lcs = [n for n in ast.walk(s) if wanted(n)]
+        if len(lcs) != 1 or not isinstance(s, (ast.Assign, ast.Return,
+                                               ast.Expr)):
+            return None
+        lc = lcs[0]
+        cnt[0] += 1
+        k = cnt[0]
+        acc, tmp = "__lc_%d" % k, "__e_%d" % k
+        g = lc.generators[0]
+        body = [ast.Assign([ast.Name(tmp, ast.Store())], lc.elt),
+                ast.Expr(ast.Call(ast.Attribute(ast.Name(acc, ast.Load()),
+                                                "append", ast.Load()),
+                                  [ast.Name(tmp, ast.Load())], []))]
+        for c in reversed(g.ifs):
+            body = [ast.If(c, body, [])]
+        loop = ast.For(g.target, g.iter, body, [])
+
+        class R(ast.NodeTransformer):
+            def visit_ListComp(self, n):
+                if n is lc:
+                    return ast.Name(acc, ast.Load())
+                return self.generic_visit(n)
+        out = [ast.Assign([ast.Name(acc, ast.Store())], ast.List([],
+                                                                 ast.Load())),
+               loop, R().visit(s)]
+        for x in out:
+            ast.copy_location(x, s)
+            ast.fix_missing_locations(x)
+        return out
+
+    def block(stmts):
+        out = []
+        for s in stmts:
+            if isinstance(s, (ast.FunctionDef, ast.AsyncFunctionDef,
+                              ast.ClassDef)):
+                out.append(s)
+                continue
+            for fld in ("body", "orelse", "finalbody"):
+                sub = getattr(s, fld, None)
+                if isinstance(sub, list) and sub and isinstance(
+                        sub[0], ast.stmt):
+                    setattr(s, fld, block(sub))
+            if isinstance(s, ast.Try):
+                for h in s.handlers:
+                    h.body = block(h.body)
+            r = rewrite(s)
+            out += r if r is not None else [s]
+        return out
+    f2 = acopy(fn)
+    f2.body = block(f2.body)
+    if not cnt[0]:
+        return fn
+    ast.fix_missing_locations(f2)
+    return f2
